@@ -35,7 +35,8 @@ NameOfPath(s) ==
       ELSE LET e == CHOOSE x \in m : \A y \in m : Len(x) <= Len(y) IN SubSeq(b, 1, Len(b) - Len(e))
 
 \* ---- file lists (io_utils::get_input_list): name <ws> file [<ws> file2] ---------------
-\* a line is a tuple of fields; 2 fields = FASTA, 3 = paired FASTQ, anything else is refused
+\* a line is a tuple of fields; 2 fields = one file, 3 = two files of ONE sample (a FASTQ pair, or two FASTA files whose
+\* records together are the sample - SplitKmer!Dict over the concatenated record list); anything else is refused
 LineOK(fields) == Len(fields) \in {2, 3}
 ListOK(lines) == \A i \in 1..Len(lines) : LineOK(lines[i])
 
